@@ -26,6 +26,7 @@ type ledgers2 struct {
 	transfers   map[*task]*transferRec
 	lastClose   map[[2]int]int64 // (from,to) -> global time a connection between them was last closed or reset
 	infoSeen    map[*nodeInc]*Info
+	duringTransfer map[*task]bool // client tasks that reached a leader while it had a transfer in progress
 	monitorRuns int
 }
 
@@ -35,6 +36,7 @@ func (l *ledgers) init2() {
 	l.x.transfers = map[*task]*transferRec{}
 	l.x.lastClose = map[[2]int]int64{}
 	l.x.infoSeen = map[*nodeInc]*Info{}
+	l.x.duringTransfer = map[*task]bool{}
 }
 
 // ---- C05 ----------------------------------------------------------------------------------------
@@ -244,10 +246,15 @@ func (l *ledgers) onDoChangeConfig(ni *nodeInc, ld *leader, c Config) {
 
 func (l *ledgers) onBecameLeader(ni *nodeInc) {
 	r := ni.r
-	// C02: a node that becomes leader holds every entry committed so far, at its index
+	// C02 (leader completeness): a node that becomes leader of term T holds every entry that
+	// was committed in a term below T. (A leader of an old term may be "elected" late, after a
+	// newer leader has already committed more: it is not a later leader.)
 	e := &entry{}
 	for i := r.log.PrevIndex() + 1; i <= l.upto; i++ {
 		ct := l.committed[i]
+		if in, ok := l.commitIn[i]; !ok || in >= r.term {
+			continue
+		}
 		if i > r.lastLogIndex {
 			l.run.violate("C02", "leader_lacks_committed_entry", "new_leader_lacks_committed", "%v became leader of term %d with last log index %d, but entry (%d,%d) is committed (%s)", ni, r.term, r.lastLogIndex, i, ct, l.commitBy[i])
 			return
@@ -744,10 +751,10 @@ func (l *ledgers) checkConnIdentities() {
 func (l *ledgers) onSetIdentityAttempt(ni *nodeInc, err error) {
 	run := l.run
 	run.reach("set_identity_attempt")
-	if err == nil {
-		run.violate("C20", "identity_changed", "identity_overwritten", "SetIdentity with another identity succeeded on the storage directory of %v", ni)
-		return
-	}
+	// The statement is that the identity cannot be changed, so the oracle looks at the stored
+	// identity. (SetIdentity's return value is not part of it: the deferred unlock overwrites
+	// the function's result, so it reports nil even when it refused; noted in DESIGN 12.)
+	_ = err
 	ids, _ := filepath.Glob(filepath.Join(ni.dir, "*.id"))
 	want := fmt.Sprintf("%d-%d.id", ni.node.cid, ni.node.id)
 	if len(ids) != 1 || filepath.Base(ids[0]) != want {
